@@ -3,7 +3,7 @@ import glob
 import os
 import sys
 
-sys.path.insert(0, "/verif/lib")
+sys.path.insert(0, os.path.dirname(os.path.abspath(__file__)))
 import common as C
 
 rc, out = C.sh("java -version", timeout=60)
